@@ -36,6 +36,8 @@ def scan_sink_results(crate, writer_fns=()):
             is_writer = (inst in wf) or (decl in wf)
             if not (is_sink or is_writer):
                 continue
+            if is_sink and not is_writer and _into_string(B, t, inst):
+                continue   # formatting into a String: an in-memory value, not the output sink (and it cannot fail)
             kinds = {k for k, _ in M.result_flow(B, bb, t)}
             if b.get("closure") and any(k.endswith("returned") for k in kinds):
                 verdict = _closure_result_consumer(crate, b)
@@ -44,6 +46,22 @@ def scan_sink_results(crate, writer_fns=()):
             seen[decl] = n + 1
             out.append((b["path"], _site(B, bb), inst if is_writer else decl, kinds, n, "sink" if is_sink else "writer"))
     return out
+
+
+def _into_string(B, t, inst):
+    if "<std::string::String as" in inst or "<alloc::string::String as" in inst:
+        return True
+    g = (t.get("func") or {}).get("gargs") or []
+    if g and g[0].replace("&mut ", "").strip() in ("std::string::String", "alloc::string::String"):
+        return True
+    if t.get("args"):
+        for o in M.trace(B, t["args"][0], M.IDENTITY_CALLS):
+            l = getattr(o, "local", None)
+            if l is not None and B.local_ty(l).replace("&mut ", "").replace("&", "").strip() in ("std::string::String", "alloc::string::String"):
+                return True
+            if o.kind == "call" and B.local_ty(o.term["dest"]["l"]).replace("&mut ", "").strip() in ("std::string::String",):
+                return True
+    return False
 
 
 def _closure_result_consumer(crate, closure_body, depth=0):
